@@ -109,6 +109,7 @@ def ihex(data):
 class Impl:
     nested = None
     failed_saves = 0
+    early_line = None
     held_at_stop = None
     pubs = 0
     restarts = 0
@@ -279,6 +280,9 @@ class Impl:
                     run_inner(inner)
             elif kind == "restart":       # clean stop, new process, start_persistence
                 self._guard(self._restart)
+            elif kind == "restart_early":    # stop; new process; it handles o[1] BEFORE start_persistence(); then starts
+                self.early_line = o[1]
+                self._guard(self._restart)
             elif kind == "restart_during":   # the inner op is handled while stop() is under way (before it disconnects)
                 inner = tuple(o[1])
                 run_inner = getattr(self, "nested", None) or self.op
@@ -336,6 +340,13 @@ class Impl:
         clock, fwn = self.clock, self._fwn
         self.__init__(cfg, self.scratch, log=self.log)
         self.clock, self._fwn = clock, fwn    # the harness clock is not part of the gateway
+        early = getattr(self, "early_line", None)
+        if early is not None:
+            # a line the new process handles BEFORE start_persistence() merges the file (monitors only: no model)
+            self.early_line = None
+            self.gw.tasks.add_job(self.gw.logic, early)
+            while not self.is_async and self.gw.tasks.queue:
+                self.gw.tasks.transport.send(self.gw.tasks.run_job())
         if self.gw.tasks.persistence:
             if self.is_async:
                 # start_persistence of the asyncio flavour creates a forever task: load + one save inline
@@ -388,6 +399,8 @@ def op_line(o):
         return "metric " + ("1" if o[1] else "0")
     if kind in ("save", "restart"):
         return kind
+    if kind == "restart_early":
+        return "restart"          # (cases with this op are not compared with the model: see gwcheck)
     if kind == "clock":
         return f"clock {o[1]}"
     if kind == "setchild":
